@@ -127,7 +127,8 @@ func (t *Object) Validate(root *Root) (errs []error) {
 }
 
 func (t *Object) validateInterface(i *Interface) (errs []error) {
-	for name, fi := range i.fields.dict {
+	for _, fi := range i.fields.list {
+		name := fi.N
 		fo := t.fields.get(name)
 		if fo == nil {
 			errs = append(errs, fmt.Errorf("%w, %s is missing field %s from interface %s at %d:%d",
